@@ -9,9 +9,12 @@
   * `excluded_is_error`: a text outside the grammar yields an error;
   * `wellformed`: whatever is returned is, placed anywhere in a packet and in any section, a record of
     the acceptance policy.
-  Inserting it into a valid packet is the subject of the mutator theorems (C08–C10).
+  * `insert_accepted`: inserting it into the answer, authority or additional section of a parsed packet
+    (a response, for the first two; within the 8192-byte and 65535-record limits) succeeds and leaves
+    bytes that satisfy the acceptance policy.
 -/
 import DnsModel.Lemmas.SynthSoundGrammar
+import DnsModel.Lemmas.InsertRec
 namespace Dns.C13
 open Dns Res
 
@@ -149,6 +152,45 @@ theorem wellformed {t rr : Bytes} (h : synth t = .ok rr) (sec : Section) (b : Bo
   rw [← hrr] at hpos hcan hty
   obtain ⟨ne', hr', _, hty'⟩ := canon_placed hpos hcan pre post
   exact ⟨ne', hr', by rw [hty', hty]; exact h41⟩
+
+/-- a synthesised record is a piece usable in any section, whatever the OPT flag -/
+theorem synth_piece {t rr : Bytes} (h : synth t = .ok rr) (sec : Section) (b : Bool) : PieceOK sec rr b b := by
+  obtain ⟨owner, f8, rd, hgo, hf8, hlt, h41, hcl, hrd, hrr⟩ := synth_inRecord h
+  obtain ⟨hpos, hcan, _⟩ := piece_standalone owner hgo f8 rd hf8 hlt h41 hrd sec b
+  rw [← hrr] at hpos hcan
+  exact ⟨rr, _, hpos, hcan⟩
+
+/-- **inserting a synthesised record** into a parsed packet leaves an accepted packet -/
+theorem insert_accepted {p : Bytes} {v : View} (h : parse p = .ok v) {t rr : Bytes} (hs : synth t = .ok rr) (sect : Section)
+    (hsect : sect = .answer ∨ sect = .nameServers ∨ sect = .additional)
+    (hqr : sect ≠ .additional → get16 p 2 / 32768 % 2 = 1)
+    (hsize : ∀ u, uncompress p = .ok u → u.length + rr.length ≤ 8192)
+    (hcount : get16 p 6 < 65535 ∧ get16 p 8 < 65535 ∧ get16 p 10 < 65535) :
+    ∃ pp', insertRR (PP.ofView p v) sect rr = .ok (pp', none) ∧ WF pp'.packet := by
+  obtain ⟨pp2, L, o, P, hA, hN, hR, hH, hpk, hstep⟩ := insert_parsed_step h sect rr
+  have hl : 12 ≤ p.length := (C02.accepted_wf p v h).1
+  have hun : uncompress p = .ok o.bytes := by
+    have := C05.uncompress_any h 12 L o
+    rw [C05.carried_question] at this
+    unfold uncompress
+    simp only [DNS_HEADER_SIZE, this, bind_ok, pure_eq]
+  have hsz : pp2.packet.length + rr.length ≤ 8192 := by rw [hpk]; exact hsize _ hun
+  have hflag : get16 P.hdr 2 = get16 p 2 := by
+    rw [hH]
+    have hag : Agree p (p.take 12) 0 0 12 := by intro i hi; simp [List.getElem?_take, hi]
+    have := hag.get16 (i := 2) (by omega)
+    simpa using this
+  rw [hstep]
+  rcases hsect with rfl | rfl | rfl
+  · obtain ⟨pp', P', hrun, _⟩ := insert_answer P rr (synth_piece hs _ _) hsz
+      (by rw [hA, o.ha.length, L.na]; exact hcount.1) (by rw [hflag]; exact hqr (by decide))
+    exact ⟨pp', hrun, P'.wf⟩
+  · obtain ⟨pp', P', hrun, _⟩ := insert_authority P rr (synth_piece hs _ _) hsz
+      (by rw [hN, o.hn.length, L.nn]; exact hcount.2.1) (by rw [hflag]; exact hqr (by decide))
+    exact ⟨pp', hrun, P'.wf⟩
+  · obtain ⟨pp', P', hrun, _⟩ := insert_additional P rr (synth_piece hs _ _) hsz
+      (by rw [hR, o.hr.length, L.nr]; exact hcount.2.2)
+    exact ⟨pp', hrun, P'.wf⟩
 
 /-! non-vacuity: "a 60 IN A 192.0.2.1" synthesises; "x 1 IN DS 1 1 1 ABC" (odd digest, the D13 witness) is an error -/
 example : synth [97, 32, 54, 48, 32, 73, 78, 32, 65, 32, 49, 57, 50, 46, 48, 46, 50, 46, 49] = .ok [1,97,0, 0,1, 0,1, 0,0,0,60, 0,4, 192,0,2,1] := by decide
